@@ -76,6 +76,45 @@ def check_boc_bytes(case):
     return None  # raising or returning are both fine here; only the bound matters
 
 
+def check_boc_invalid_top(case):
+    """a bag whose cells form a maximal-sharing ladder, topped by a cell the parser has to REFUSE (an exotic type byte with the
+    wrong number of references / an unknown type / a Merkle cell whose stored hash is wrong / too short for an exotic cell):
+    refusing it costs work bounded by the input like everything else - whatever is done on the error path (messages included)
+    must not walk the shared DAG once per path"""
+    from pytoniq_core.boc.cell import Cell
+    h = case['h']
+    spec = ladder(h)
+    top_bits = format(case['type'], '08b') + dag.expand_bits(case['nbits'], 2, h)
+    spec.append({'k': 'o', 'b': top_bits, 'r': [h] * case['nrefs']})
+    cells = dag.build_ref(spec)
+    data = bytearray(refboc.encode([cells[-1]], has_idx=False, has_crc=False, size=1, off_bytes=2))
+    pos = 4 + 1 + 1 + 3 + 2 + 1                  # magic, flags, off_bytes, cells/roots/absent, tot_cells_size, root index
+    if data[pos] != case['nrefs']:
+        raise AssertionError('root cell not where expected (harness)')
+    data[pos] |= 8                                # the exotic flag of d1: the first data byte now is the cell type
+    data = bytes(data)
+    for f, nm in ((lambda: Cell.from_boc(data), 'from_boc-bytes'), (lambda: Cell.one_from_boc(data.hex()), 'from_boc-bytes')):
+        ok, res, calls = counted(f, 200 * len(data) + 600, nm)
+    # the same cell built directly on top of library cells (Builder(type_=t) ... end_cell())
+    from pytoniq_core.boc.builder import Builder
+    lib = dag.lib_from_ref(cells[:-1], 'builder')
+
+    def direct():
+        b = Builder(type_=case['type'] if case['type'] < 128 else case['type'] - 256).store_bits(top_bits)
+        for _ in range(case['nrefs']):
+            b.store_ref(lib[-1])
+        return b.end_cell()
+    ok, res, calls = counted(direct, 200 * len(data) + 600, 'build-hash')
+    return None                                   # raising is the expected outcome; only the bound matters
+
+
+def enum_boc_invalid_top(tier):
+    for h in (20, 25, 30, 40, 60, 120, 250):
+        for t, nrefs, nbits in ((1, 1, 272), (1, 2, 272), (1, 4, 16), (2, 1, 256), (2, 2, 0), (3, 2, 272), (3, 1, 272), (3, 0, 272),
+                                (4, 1, 544), (4, 2, 544), (4, 3, 544), (9, 1, 8), (0, 2, 8), (255, 2, 64), (3, 1, 0), (4, 2, 8)):
+            yield {'h': h, 'type': t, 'nrefs': nrefs, 'nbits': nbits}
+
+
 def ladder(h, width=2, leaf=None):
     spec = [leaf or {'k': 'o', 'b': [8, 2, h], 'r': []}]
     for k in range(1, h + 1):
@@ -311,6 +350,9 @@ SUBCHECKS = [
         timeout_is_violation=True),
     Sub('boc-parser-inflated-counts', check_boc_bytes, strategy=strat_boc_bytes, classify=classify, nontrivial=nt, n=(2000, 60000),
         shards=(8, 32), case_cpu_s=10, timeout_is_violation=True),
+    Sub('boc-parser-invalid-cell-over-shared-dag', check_boc_invalid_top, enum=enum_boc_invalid_top, shards=(8, 8), case_cpu_s=10,
+        classify=lambda c: ['type=%d' % c['type'], 'h=%d' % c['h']], nontrivial=lambda c: True,
+        note='ladders of height 20..250 (2^20..2^250 paths) under a root cell of exotic type 0/1/2/3/4/9/255 with wrong reference counts / data'),
     Sub('tl-parser-adversarial-counts', check_tl_bytes, strategy=strat_tl, classify=classify_tl, n=(3000, 100000), shards=(8, 32),
         case_cpu_s=10, timeout_is_violation=True,
         note='valid TL encodings (reference encoder) with vector counts / string length prefixes / flags rewritten to huge values, '
